@@ -214,3 +214,62 @@ package algo
 //@   invariant bestPos >= 0 ==> lenPattern - 1 <= bestPos && bestPos < lenRunes && occp(text, pattern, caseSensitive, normalize, forward, bestPos - lenPattern + 1, lenPattern)
 //@   invariant !boundaryCheck && bestPos < 0 ==> forall(s, 0, index - pidx, !occp(text, pattern, caseSensitive, normalize, forward, s, lenPattern))
 //@   decreases (lenRunes - (index - pidx)) * (lenPattern + 1) + (lenPattern - pidx)
+
+// ---------------------------------------------------------------- FuzzyMatchV1
+// hits(.., i, k): the character at scan step i matches the pattern character at pattern scan step k.
+//@ spec func hits(c *util.Chars, p []rune, cs bool, nz bool, fwd bool, i int, k int) bool = hitp(c, sc(i, clen(c), fwd), p, sc(k, len(p), fwd), cs, nz)
+// gs(.., i): pattern characters consumed by the greedy scan of scan steps [0, i) (the first loop of V1).
+//@ spec func gs(c *util.Chars, p []rune, cs bool, nz bool, fwd bool, i int) int = i <= 0 ? 0 : ((gs(c, p, cs, nz, fwd, i - 1) < len(p) && hits(c, p, cs, nz, fwd, i - 1, gs(c, p, cs, nz, fwd, i - 1))) ? gs(c, p, cs, nz, fwd, i - 1) + 1 : gs(c, p, cs, nz, fwd, i - 1)) decreases i
+// gb(.., e, i): pattern characters (taken from the end) consumed scanning steps e-1 down to i (the shrink loop of V1).
+//@ spec func gb(c *util.Chars, p []rune, cs bool, nz bool, fwd bool, e int, i int) int = i >= e ? 0 : ((gb(c, p, cs, nz, fwd, e, i + 1) < len(p) && hits(c, p, cs, nz, fwd, i, len(p) - 1 - gb(c, p, cs, nz, fwd, e, i + 1))) ? gb(c, p, cs, nz, fwd, e, i + 1) + 1 : gb(c, p, cs, nz, fwd, e, i + 1)) decreases e - i
+
+// Two facts about greedy scans that are checked exhaustively for every shape in a box
+// (bounded, not proved): the reverse scan from the greedy end finds the whole pattern
+// again, and the forward scan over the shrunk range ends exactly at its last character.
+//@ lemma rev_complete(c *util.Chars, p []rune, cs bool, nz bool, fwd bool, s int, e int) bounded
+//@ property C02
+//@ bounded clen(c)=0..5 len(p)=1..3 s=0..5 e=0..5
+//@ requires 0 <= s && s < e && e <= clen(c) && len(p) >= 1
+//@ requires gs(c, p, cs, nz, fwd, e) == len(p) && gs(c, p, cs, nz, fwd, e - 1) == len(p) - 1 && gs(c, p, cs, nz, fwd, s) == 0
+//@ ensures gb(c, p, cs, nz, fwd, e, s) == len(p)
+
+//@ lemma shrink_ok(c *util.Chars, p []rune, cs bool, nz bool, fwd bool, s int, e int) bounded
+//@ property C02
+//@ bounded clen(c)=0..5 len(p)=1..3 s=0..5 e=0..5 fwd=0..1
+//@ requires 0 <= s && s < e && e <= clen(c) && len(p) >= 1
+//@ requires gs(c, p, cs, nz, fwd, e) == len(p) && gs(c, p, cs, nz, fwd, e - 1) == len(p) - 1
+//@ requires gb(c, p, cs, nz, fwd, e, s) == len(p) && gb(c, p, cs, nz, fwd, e, s + 1) == len(p) - 1
+//@ ensures forall(i, tstart(s, clen(c), e - s, fwd), tstart(s, clen(c), e - s, fwd) + e - s, g(c, p, cs, nz, tstart(s, clen(c), e - s, fwd), i) < len(p))
+
+//@ func FuzzyMatchV1
+//@ property C02 C01
+//@ requires text != nil && validChars(text) && validRunes(pattern) && len(pattern) <= 2147483648
+//@ ensures len(pattern) == 0 ==> r0.Start == 0 && r0.End == 0 && r1 == nil
+//@ ensures r0.Start < 0 ==> r0.Start == -1 && r0.End == -1 && r1 == nil
+//@ ensures len(pattern) > 0 && r0.Start >= 0 ==> r0.Start < r0.End && r0.End <= clen(text)
+//@ ensures len(pattern) > 0 && r0.Start >= 0 ==> gs(text, pattern, caseSensitive, normalize, forward, clen(text)) == len(pattern)
+//@ ensures len(pattern) > 0 && r0.Start < 0 && asciiFuzzyIndex_r0(text, pattern, caseSensitive) >= 0 ==> gs(text, pattern, caseSensitive, normalize, forward, clen(text)) < len(pattern)
+//@ ensures len(pattern) > 0 && r0.Start >= 0 && withPos ==> r1 != nil && len(*r1) == len(pattern)
+//@ ensures len(pattern) > 0 && r0.Start >= 0 && withPos ==> forall(k, 0, len(*r1), r0.Start <= (*r1)[k] && (*r1)[k] < r0.End && hitp(text, (*r1)[k], pattern, k, caseSensitive, normalize))
+//@ ensures len(pattern) > 0 && r0.Start >= 0 && withPos ==> forall(k, 1, len(*r1), (*r1)[k-1] < (*r1)[k])
+//@ ensures !withPos ==> r1 == nil
+//@ use @"if sidx >= 0 && eidx >= 0" gs_done(text, pattern, caseSensitive, normalize, forward, eidx, lenRunes)
+//@ use @"if !forward" rev_complete(text, pattern, caseSensitive, normalize, forward, sidx, eidx)
+//@ use @"if !forward" shrink_ok(text, pattern, caseSensitive, normalize, forward, sidx, eidx)
+//@ loop 1
+//@   invariant lenRunes == clen(text) && lenPattern == len(pattern) && 1 <= lenPattern && eidx == -1
+//@   invariant 0 <= index && index <= lenRunes && 0 <= pidx && pidx < lenPattern && pidx == gs(text, pattern, caseSensitive, normalize, forward, index)
+//@   invariant (sidx < 0) == (pidx == 0)
+//@   invariant sidx >= 0 ==> sidx < index && gs(text, pattern, caseSensitive, normalize, forward, sidx) == 0
+//@   decreases lenRunes - index
+//@ loop 2
+//@   invariant 0 <= sidx && sidx - 1 <= index && index <= eidx - 1 && eidx <= lenRunes && 0 <= pidx && pidx < lenPattern
+//@   invariant lenPattern - 1 - pidx == gb(text, pattern, caseSensitive, normalize, forward, eidx, index + 1)
+//@   invariant gs(text, pattern, caseSensitive, normalize, forward, eidx) == lenPattern && gs(text, pattern, caseSensitive, normalize, forward, eidx - 1) == lenPattern - 1 && gs(text, pattern, caseSensitive, normalize, forward, sidx) == 0
+//@   decreases index + 1
+
+// Once the whole pattern is consumed the greedy count stays put.
+//@ lemma gs_done(c *util.Chars, p []rune, cs bool, nz bool, fwd bool, a int, b int) induction b
+//@ property C02
+//@ requires 0 <= a && a <= b && gs(c, p, cs, nz, fwd, a) == len(p)
+//@ ensures gs(c, p, cs, nz, fwd, b) == len(p)
